@@ -121,7 +121,7 @@ def make_auth(case):
 
         def _login(self, login, password):
             ans = table_answer(self.table, login, password)
-            self.calls.append((clock.t, login, password, ans))
+            self.calls.append((auth.time.time_ns(), login, password, ans))     # stamped with the caller's clock
             return ans
 
     return Scripted(configuration(case["cfg"])), clock
